@@ -5,7 +5,7 @@ import schedlib
 
 def run(c):
     schedlib.run_sched_check(
-        c, "c04", [schedlib.oracle_c04, schedlib.oracle_c04_deps], n_quick=350, n_thorough=3000, golden_name="c04.json",
+        c, "c04", [schedlib.oracle_c04, schedlib.oracle_c04_deps], n_quick=300, n_thorough=3000, golden_name="c04.json",
         rule=("random DAGs (<=7 jobs) whose upstream tasks are embedded in the parameters directly, in lists, dicts, "
               "nested configurations (also lists of configurations holding dicts), task outputs, pre-tasks (lightweight "
               "or submitted tasks), init tasks and explicit dependencies, with duplicates / re-submissions and the "
